@@ -58,8 +58,21 @@ class PythonMagicNumberAnalyzer(ast.NodeVisitor):
         """
         # bool is a subclass of int, but True/False are not numeric literals
         if isinstance(node.value, (int, float)) and not isinstance(node.value, bool):
-            parent = self.parent_map.get(node)
+            parent = self._context_parent(node)
             line_number = node.lineno if hasattr(node, "lineno") else 0
             self.numeric_literals.append((node, parent, node.value, line_number))
 
         self.generic_visit(node)
+
+    def _context_parent(self, node: ast.Constant) -> ast.AST | None:
+        """Parent that decides the literal's context.
+
+        A sign (``MIN_TEMP = -40``) or a keyword (``enumerate(items, start=1)``) wraps the
+        literal without changing where it is used, so the wrapper's parent is reported.
+        """
+        parent = self.parent_map.get(node)
+        if isinstance(parent, ast.UnaryOp) and isinstance(parent.op, (ast.USub, ast.UAdd)):
+            parent = self.parent_map.get(parent)
+        if isinstance(parent, ast.keyword):
+            parent = self.parent_map.get(parent)
+        return parent
